@@ -33,6 +33,9 @@ def build_pool():
 POOL = build_pool()
 SENTINELS = [F.ident(0x00BEEF, f"END{i}") for i in range(4)]
 OTHER = F.ident(0x123456, "NOTINW").hex()
+# a frame that only ever occurs inside lines that are malformed as a whole (non-ASCII garbage
+# before or inside it): it must never be processed
+EMBEDDED = F.ident(0x654321, "EMBEDD").hex()
 
 MALFORMED = [
     b"\n",
@@ -62,6 +65,11 @@ MALFORMED = [
     b"@0123456789ab8d4840d6202cc371c32ce0576098;\n",
     b" \n",
     b"**;;\n",
+    b"*8d48\xff\xff40d6;\n",
+    b"\xc3( noise *" + EMBEDDED.encode() + b";\n",
+    "日本*".encode() + EMBEDDED.encode() + b";\n",
+    b"*" + EMBEDDED[:10].encode() + b"\xff" + EMBEDDED[10:].encode() + b";\n",
+    b"\xe2\x82*" + EMBEDDED.encode() + b";\n",
 ]
 
 DELAYS = [0.0, 0.0, 0.005, 0.03, 0.07, 0.15, 0.15, 0.4]
@@ -91,8 +99,22 @@ def materialise(case):
         offs.append((off, len(x[1])))
         off += len(x[1])
     cutset = set()
+    forced = set()  # cuts that are always followed by a pause longer than the clients' read timeout
+    nonascii = [i for i, x in enumerate(items) if any(ch >= 0x80 for ch in x[1])]
     for c in case["cuts"]:
-        if isinstance(c, (list, tuple)):
+        if isinstance(c, (list, tuple)) and c[0] == "u":
+            # inside a line with non-ASCII bytes: just before the first such byte, after it, or
+            # just after the last one - the pieces on the two sides differ in UTF-8 validity
+            if not nonascii:
+                continue
+            i = nonascii[c[1] % len(nonascii)]
+            a, n = offs[i]
+            hi = [k for k, ch in enumerate(items[i][1]) if ch >= 0x80]
+            rel = [hi[0], hi[0] + 1, hi[-1] + 1][c[2] % 3]
+            if 0 < rel < n:
+                cutset.add(a + rel)
+                forced.add(a + rel)
+        elif isinstance(c, (list, tuple)):
             a, n = offs[c[1] % len(offs)]
             rel = [1, n // 2, max(n - 2, 0), max(n - 1, 0)][c[2] % 4]
             cutset.add(a + rel)
@@ -104,6 +126,8 @@ def materialise(case):
     long_budget = 2.5
     for i in range(len(bounds) - 1):
         d = DELAYS[case["delays"][i % len(case["delays"])] % len(DELAYS)] if case["delays"] else 0.0
+        if bounds[i + 1] in forced:
+            d = 0.15
         if d > 0.05:
             if long_budget - d < 0:
                 d = 0.0
@@ -169,6 +193,8 @@ def run_1090(case):
                 fails.append(("C16/1090/terminated", f"1090 terminated: {s.err.decode(errors='replace')[-300:]}"))
         if not crashed:
             lines = s.lines()
+            if EMBEDDED in lines:
+                fails.append(("C16/1090/malformed_processed", "part of a line that is malformed as a whole (non-ASCII bytes before or inside the frame) was processed as a frame"))
             good, got = in_order_once(lines, w)
             if not good:
                 missing = [x for x in w if x not in got]
@@ -270,6 +296,8 @@ def run_radar(case):
             else:
                 fails.append(("C16/radar/terminated", f"radar terminated: {s.stderr()[-400:]}"))
             return fails, w
+        if EMBEDDED in s.log_bytes_lines():
+            fails.append(("C16/radar/malformed_processed", "part of a line that is malformed as a whole (non-ASCII bytes before or inside the frame) was processed as a frame"))
         good, got = in_order_once(s.log_bytes_lines(), w)
         if not good:
             missing = [x for x in w if x not in got]
@@ -323,6 +351,12 @@ def classify(case):
         off += len(data)
         if d > 0.05 and any(a < off < b and kind == "g" for (a, b, kind, _) in spans):
             cut_in_good_slow = True
+    off = 0
+    for data, d in segs[:-1]:
+        off += len(data)
+        if d > 0.05 and any(a < off < b and kind == "b" and any(ch >= 0x80 for ch in stream[a:b]) for (a, b, kind, _) in spans):
+            cls.append("pause > 50 ms inside a non-ASCII line")
+            break
     if bad_then_good:
         cls.append("malformed then well-formed")
     if cut_in_good_slow:
@@ -350,7 +384,7 @@ def worker(args):
     case_s = st.fixed_dictionaries({
         "client": st.sampled_from(["1090", "radar", "radar"]),
         "items": st.lists(item, min_size=1, max_size=24),
-        "cuts": st.lists(st.one_of(st.integers(0, 10000), st.tuples(st.just("s"), st.integers(0, 23), st.integers(0, 3))), max_size=24),
+        "cuts": st.lists(st.one_of(st.integers(0, 10000), st.tuples(st.just("s"), st.integers(0, 23), st.integers(0, 3)), st.tuples(st.just("u"), st.integers(0, 23), st.integers(0, 2))), max_size=24),
         "delays": st.lists(st.integers(0, len(DELAYS) - 1), min_size=1, max_size=8),
         "drop": drop,
         "limit": st.sampled_from([False, False, True]),
@@ -419,7 +453,7 @@ def main():
     per = 24 if tier == "quick" else 600
     rc = pbt.run_parallel(
         PID, os.path.abspath(__file__), tier, nworkers, per, "exploration",
-        "Hypothesis-generated feeds (well-formed lines of CRC-valid frames of 3 aircraft interleaved with 27 kinds of malformed line), arbitrary segmentation of the byte stream with inter-segment delays on both sides of the 50 ms read timeout, server-side connection drops at arbitrary byte offsets with and without --retry-tcp; both clients as black boxes (1090: stdout; radar: pty + debug log). Oracle: the well-formed lines delivered completely on one connection are processed exactly once and in order (log / stdout restricted to that set), followed by the library's rendering (1090) / reflected in the Airplanes tab counts (radar); client alive afterwards; on disconnect exit 0 + farewell + terminal restored, or reconnect with --retry-tcp. non-trivial = malformed line followed by a well-formed one, or a pause > 50 ms inside a well-formed line, or a drop; distinct by hash of the case",
+        "Hypothesis-generated feeds (well-formed lines of CRC-valid frames of 3 aircraft interleaved with 32 kinds of malformed line), arbitrary segmentation of the byte stream with inter-segment delays on both sides of the 50 ms read timeout, server-side connection drops at arbitrary byte offsets with and without --retry-tcp; both clients as black boxes (1090: stdout; radar: pty + debug log). Oracle: the well-formed lines delivered completely on one connection are processed exactly once and in order (log / stdout restricted to that set), followed by the library's rendering (1090) / reflected in the Airplanes tab counts (radar); client alive afterwards; on disconnect exit 0 + farewell + terminal restored, or reconnect with --retry-tcp. non-trivial = malformed line followed by a well-formed one, or a pause > 50 ms inside a well-formed line, or a drop; distinct by hash of the case",
         ["the verdict never depends on measured time: delays only steer which code path runs", "a case in which the client is alive but unresponsive to three sentinels is reported as stuck; a client that does not connect is inconclusive", "lines cut by a server-side drop are excluded from the expected set"],
         a.seed,
         regress_one=lambda c: run_case(c)[0],
